@@ -33,8 +33,22 @@ static void c15_run(vf_case *c)
     if (zmode == 0 && n > 1) { int j = rng_int(r, 0, n - 1); for (int_t k = A.colptr[j]; k < A.colptr[j + 1]; k++) A.v[k] = 0; }
     if (zmode == 1) for (int_t k = 0; k < A.nnz; k++) if (A.rowind[k] < n / 2 && rng_bool(r, 0.5)) A.v[k] = 0;
     if (zmode == 2 && n > 2) { /* two identical leading columns' values where patterns overlap: cancellation */ for (int_t k = A.colptr[0]; k < A.colptr[1]; k++) for (int_t q = A.colptr[1]; q < A.colptr[2]; q++) if (A.rowind[q] == A.rowind[k]) A.v[q] = A.v[k]; }
+    /* two equations/unknowns in tiny or huge units (a 6x6 family): MC64 wants a scale factor beyond the square root of the overflow
+       threshold, and the (0,2) entry, whose value underflowed, is stored as an explicit zero exactly where the row factor times the
+       column factor is not representable.  The driver has to fall back to ?gsequ (documented) and complete. */
+    int units = P->letter == 'd' && rng_bool(r, 0.01);
+    if (units) {
+        static const double Bw[6][6] = { { 1, .5, 0, 0, 0, .25 }, { 1, 1, 0, 0, 0, 0 }, { 0, 0, 1, .5, 0, 0 }, { 0, 0, -.25, 4, 1, 0 }, { .5, 0, 0, -1, 4, 1 }, { 0, 0, 0, 0, -1, 4 } };
+        mat_free(&A); n = 6; A.m = A.n = 6; A.colptr = malloc(sizeof(int_t) * 7); A.rowind = malloc(sizeof(int_t) * 36); A.v = malloc(sizeof(ldc) * 36);
+        ld sc = expl(-(ld)rng_int(r, 360, 440)); int_t k = 0;
+        for (int j = 0; j < 6; j++) { A.colptr[j] = k; for (int i = 0; i < 6; i++) if (Bw[i][j] != 0 || (i == 0 && j == 2)) {
+            ld v = Bw[i][j] * (1 + 0.2L * (2 * rng_unif(r) - 1)); if (i == 0) v *= sc; if (j == 1) v /= sc; if (j == 2) v *= sc;
+            A.rowind[k] = i; A.v[k] = P->round(v); k++; } }
+        A.colptr[6] = k; A.nnz = k; vf_tag(c, "units-beyond-sqrt-overflow");
+    }
     int sr = sprank(&A);
     superlu_options_t xo; gen_ilu_options(r, &xo); xo.Fact = DOFACT;
+    if (units) { xo.RowPerm = LargeDiag_MC64; xo.Equil = YES; xo.ILU_DropRule = NODROP; }
     run_opts o; gen_run_opts(r, &o, 1);
     gen_tuning(r, rng_bool(r, 0.85));
     int nrhs = rng_int(r, 0, 3);
@@ -51,9 +65,14 @@ static void c15_run(vf_case *c)
     const NCformat *st = D.A.Store; ldc *Av0 = malloc(sizeof(ldc) * (size_t)(A.nnz + 1)); for (int_t k = 0; k < A.nnz; k++) Av0[k] = P->get(st->nzval, (size_t)k);
     int use_ws = rng_bool(r, 0.2); void *work = NULL;
     if (use_ws) { D.lwork = (int_t)generous_lwork(P, n, A.nnz) * 2; work = vf_ws_alloc(c, (size_t)D.lwork); D.work = work; }
+    /* the first size of the factor arrays is an internal matter: the guarantees hold wherever the growth points fall */
+    long cap[3] = { 0, 0, 0 };
+    if (rng_bool(r, 0.35)) { int which = rng_int(r, 0, 3); if (which > 2) which = 2; cap[which] = rng_int(r, 1, (int)(2 * A.nnz + n + 2)); if (rng_bool(r, 0.3)) cap[(which + 1) % 3] = rng_int(r, 1, 8); vf_tag(c, "capacity-start"); }
     vf_events_reset();
 
+    vf_cap_set(cap[0], cap[1], cap[2]);
     xdrv_call(&D, &xo);
+    vf_cap_set(0, 0, 0);
 
     int_t info = D.info; long ev = vf_events_count(VF_EV_ILU_PIVOT) + vf_events_count(VF_EV_ILU_DROP);
     vf_tag(c, "rule=0x%x", xo.ILU_DropRule & 0x1f); vf_tag(c, "milu=%d", (int)xo.ILU_MILU); vf_tag(c, "rowperm=%d", (int)xo.RowPerm); vf_tag(c, "trans=%d", (int)xo.Trans);
@@ -69,12 +88,15 @@ static void c15_run(vf_case *c)
             vf_snap idx1; snap_sparse(P, &D.A, &idx1, NULL);
             if (!snap_same(&idx0, &idx1)) vf_viol(c, "ilu-A-indices-not-restored", "the caller's index arrays of A differ after gsisx (rowperm=%d)", (int)xo.RowPerm);
             snap_free(&idx1);
+            { int bad = 0; for (int_t k = 0; k < A.nnz; k++) { ldc v = P->get(st->nzval, (size_t)k); if (!isfinite((double)creall(v)) || !isfinite((double)cimagl(v))) bad = 1; }
+              if (bad) vf_viol(c, "ilu-A-nonfinite", "the caller's matrix (finite on entry) holds a non-finite value after gsisx (equed=%c, rowperm=%d)", D.equed[0], (int)xo.RowPerm); }
             if (!is_perm(D.perm_r, n) || !is_perm(D.perm_c, n)) vf_viol(c, "ilu-perm-not-bijection", "perm_r/perm_c not permutations");
             else if (structure_ok(P, &D.L, &D.U, n, n, 1, why, sizeof why)) vf_viol(c, "ilu-structure", "%s", why);
             else {
                 ldc *Ld = malloc(sizeof(ldc) * (size_t)n * n), *Ud = malloc(sizeof(ldc) * (size_t)n * n);
                 expand_LU(P, &D.L, &D.U, n, n, Ld, Ud);
                 if (check_udiag(P, Ud, n, why, sizeof why)) vf_viol(c, "ilu-U-diagonal", "%s", why);
+                else if (units) { vf_tag(c, "units-numeric-verdicts-skipped"); c->nontrivial = 1; }      /* products over- and underflow by construction */
                 else {
                     ld cf = P->cplx ? 16 : 8;
                     /* (a) X is the preconditioner solve defined by the returned factors */
